@@ -13,7 +13,7 @@ FORMULAS = {
     "C18": ["InterceptOnce", "StatsWellFormed", "OptionsTransparent", "Crash:opts"],
 }
 # families each property runs
-FAMILIES = {"C05": ["status", "script"], "C06": ["stream", "script"], "C08": ["limits"], "C14": ["md", "script"], "C18": ["opts"]}
+FAMILIES = {"C05": ["status", "script", "ws-status"], "C06": ["stream", "script", "ws-seq"], "C08": ["limits", "ws-limits"], "C14": ["md", "script"], "C18": ["opts"]}
 
 MSG_CLASSES = ["plain", "pct", "ctl", "u2", "u3"]
 
@@ -51,7 +51,7 @@ def act(op, md=None, size=0, code=0, msg=None, det=0):
 def base(proto, shape, codec="proto", **kw):
     c = dict(proto=proto, shape=shape, codec=codec, comp="", opts=[], sizes=[3] if shape in ("unary", "sstream") else [3, 0],
              script=[], reqmd={}, reqwant={}, maxrecv=0, maxsend=0, sched=[], eofwith=False, trunc=0, trunck=0, timeout="",
-             accept="", tag="", binpad=False, exact=False, corrupt=False, boundary=0)
+             accept="", tag="", binpad=False, exact=False, corrupt=False, boundary=0, wsclose=False)
     c.update(kw)
     return c
 
@@ -185,6 +185,64 @@ def fam_limits(rnd, tier):
     return out[: (3000 if tier == "quick" else 40000)]
 
 
+def fam_ws(rnd, tier, part):
+    """WebSocket sessions on a real socket (JSON text frames).  A session ends either by the server's close frame
+    (the client waits: the handler must not read past what was sent) or by the client's (wsclose: the handler reads to
+    the end of the stream)."""
+    out = []
+    cs = lambda shape: shape in ("cstream", "bidi")
+    if part == "status":
+        codes = list(range(0, 19)) + [2147483647, 100]
+        # reasons around the 123-byte capacity of a close frame, with the cut falling inside 2- and 3-byte characters
+        msgsets = [[], ["plain"], ["plain", "pct", "u2"], ["ctl", "plain"], ["u3"] * 41, ["u3"] * 42, ["u2"] * 61, ["u2"] * 62,
+                   ["plain"] + ["u2"] * 62, ["plain"] * 123, ["plain"] * 124, ["plain"] * 122 + ["u3"], ["plain"] * 121 + ["u3"], ["long"]]
+        for code in codes:
+            for shape, after in [("unary", 0), ("sstream", 0), ("sstream", 2), ("bidi", 1), ("cstream", 0)]:
+                for m in (msgsets if tier != "quick" else rnd.sample(msgsets, 3) + [["u2"] * 62, ["plain"] * 124, ["plain"] + ["u2"] * 62]):
+                    if code == 0 and m:
+                        continue
+                    c = base("ws", shape, codec="json", tag="status")
+                    c["sizes"] = [3, 0] if cs(shape) else [3]
+                    c["script"] = ([act("recv") for _ in c["sizes"]] if cs(shape) else []) + [act("send", size=2) for _ in range(after)] + [act("ret", code=code, msg=m)]
+                    out.append(c)
+    elif part == "seq":
+        seqs = [[], [0], [3], [-1], [0, 0], [3, -1, 5], [-1, -1], [1, 2, 3, 4], [40], [0, 70, 0], [3000]]
+        for sizes in seqs:
+            for k in range(4 if tier == "quick" else 30):
+                for shape in ["bidi", "cstream", "sstream", "unary"]:
+                    if not cs(shape) and len(sizes) != 1:
+                        continue
+                    for wsclose in ([False, True] if cs(shape) else [False]):
+                        c = base("ws", shape, codec="json", sizes=sizes, tag="stream", wsclose=wsclose)
+                        sc = []
+                        if cs(shape):
+                            nrep = rnd.randint(0, len(sizes)) if shape == "bidi" else 0
+                            for i in range(len(sizes)):
+                                sc.append(act("recv"))
+                                if i < nrep:
+                                    sc.append(act("send", size=rnd.choice([-1, 0, 2, 30, 2000])))
+                            if wsclose:
+                                sc += [act("recv")] * rnd.choice([1, 1, 2])    # end of stream, and again
+                            elif shape == "cstream" or rnd.random() < 0.5:
+                                sc.append(act("send", size=2))
+                        else:
+                            sc += [act("send", size=rnd.choice([-1, 0, 2, 30])) for _ in range(rnd.randint(0, 3) if shape == "sstream" else 1)]
+                        sc.append(act("ret", code=0 if (wsclose or rnd.random() < 0.7) else 5, msg=["plain"]))
+                        if sc[-1]["code"] == 0:
+                            sc[-1]["msg"] = []
+                        c["script"] = sc
+                        out.append(c)
+    else:   # limits
+        for L in ([30, 64, 1000] if tier == "quick" else [24, 30, 64, 200, 1000, 5000]):
+            for size in [L - 1, L, L + 1, 50 * L]:
+                for shape in ["unary", "cstream", "bidi"]:
+                    c = base("ws", shape, codec="json", maxrecv=L, exact=True, tag="limits", wsclose=cs(shape))
+                    c["sizes"] = [size] if shape == "unary" else [L // 2 + 12, size]
+                    c["script"] = recv_all(c) + [act("ret", code=0)]     # (a reply after the client's close could not be delivered)
+                    out.append(c)
+    return out
+
+
 def fam_md(rnd, tier):
     out = []
     names = [("x-a", "x-a"), ("X-Mixed-Case", "x-mixed-case"), ("x-multi", "x-multi"), ("X-UPPER", "x-upper")]
@@ -310,10 +368,12 @@ def run(prop, tier, replay=None):
                     cases += fam_md(rnd, tier)
                 elif f == "opts":
                     cases += fam_opts(scripts, rnd, tier)
+                elif f.startswith("ws-"):
+                    cases += fam_ws(rnd, tier, f[3:])
             for i, c in enumerate(cases):
                 c["id"] = i + 1
                 # a third of the non-gRPC requests arrive over HTTP/2 (same for every member of an option group)
-                c.setdefault("h2", c["proto"] != "grpc" and (zlib.crc32(str(c.get("group")).encode()) if c.get("group") else i) % 3 == 1)
+                c.setdefault("h2", c["proto"] not in ("grpc", "ws") and (zlib.crc32(str(c.get("group")).encode()) if c.get("group") else i) % 3 == 1)
         with open(cpath, "w") as f:
             for c in cases:
                 f.write(json.dumps(c) + "\n")
